@@ -958,6 +958,14 @@ func (o *observer) OnReceive(ctx vivid.ActorContext) {
 				}
 			} else {
 				ob.Note = reflect.TypeOf(m.Envelope.Message()).String()
+				switch ev := m.Envelope.Message().(type) {
+				case EvA:
+					ob.MsgID = ev.ID
+				case *EvB:
+					ob.MsgID = ev.ID
+				case EvC:
+					ob.MsgID = ev.ID
+				}
 			}
 		}
 		w.mu.Lock()
